@@ -1,5 +1,6 @@
 import ObiVerif.Model.SeqOps
 import ObiVerif.Lemmas.SeqOps
+import ObiVerif.Lemmas.SeqHeapStep
 /-!
 # C07 — reverse complement, subsequence and copy obey their algebraic laws (property theorems)
 
@@ -467,5 +468,74 @@ example : subseqPos 1 5 3 1 = none :=
   subseqPos_linear [97, 99, 103, 116, 110] 1 4 (by decide) (by decide) 1 (by decide) (by decide)
 example : subseqPos 3 5 4 2 = some 4 :=
   subseqPos_wrapped [97, 99, 103, 116, 110] 3 2 (by decide) (by decide) 2 (by decide) (by decide)
+
+/-! ## The byte-slice pool: value semantics is a theorem about the heap (Model/SeqHeap.lean)
+
+`SeqHeap.step` transcribes `GetSlice`/`RecycleSlice`/`CopySlice`, `Copy`, `Recycle`, `SetQualities`,
+`SetFeatures`, `ReverseComplement`, `Subsequence` over a heap of arrays, slice variables and a pool of
+**addresses of slice variables**; `ch` are the decisions of `sync.Pool` (which item `Get` returns, or none)
+and of `append` (spare capacity).  All theorems hold for every `ch`. -/
+
+open ObiVerif.SeqHeap in
+/-- every state reached from the empty heap by a well-behaved history satisfies the heap invariant,
+whatever the pool decides -/
+theorem heap_run_inv (ops : List HOp) (ch : Nat → Nat → Nat) (i : Nat) (h h' : Heap) (hI : Inv h)
+    (hr : SeqHeap.run h ch i ops = .ok h') : Inv h' := by
+  induction ops generalizing h i with
+  | nil => simp only [SeqHeap.run, Except.ok.injEq] at hr; subst hr; exact hI
+  | cons op t ih =>
+    simp only [SeqHeap.run] at hr
+    cases hs : step h (ch i) op with
+    | error e => simp [hs] at hr
+    | ok h1 => simp only [hs] at hr; exact ih (i + 1) h1 (step_ok hI hs).1 hr
+
+open ObiVerif.SeqHeap in
+/-- **no shared buffer**: in every reachable state, two different slice fields of live objects (of the
+same object or of two objects) never show the same backing array — and no pooled slice shows the array
+of a live object -/
+theorem no_shared_buffer (ops : List HOp) (ch : Nat → Nat → Nat) (h' : Heap)
+    (hr : SeqHeap.run Heap.empty ch 0 ops = .ok h')
+    (n m : String) (o o' : HObj) (i j : Nat) (hi : i < 3) (hj : j < 3)
+    (hn : h'.objs n = some o) (hm : h'.objs m = some o') (hne : n ≠ m ∨ i ≠ j)
+    (s t : Slice) (hs : h'.cells (o.base + i) = some s) (ht : h'.cells (o'.base + j) = some t) :
+    s.buf ≠ t.buf ∧ ∀ p ∈ h'.pool, ∀ u, h'.cells p = some u → u.buf ≠ s.buf := by
+  have hI := heap_run_inv ops ch 0 _ h' Inv.empty hr
+  have f1 : Fld h' (o.base + i) := fld_of hn i hi
+  have f2 : Fld h' (o'.base + j) := fld_of hm j hj
+  refine ⟨?_, ?_⟩
+  · intro heq
+    have e := hI.sep _ _ s t (fld_owner f1) (fld_owner f2) hs ht heq
+    rcases hne with hne | hne
+    · have := hI.disj n m o o' hn hm hne; omega
+    · by_cases hnm : n = m
+      · subst hnm; rw [hn] at hm; cases hm; omega
+      · have := hI.disj n m o o' hn hm hnm; omega
+  · intro p hp u hu heq
+    have e := hI.sep p _ u s (Or.inl hp) (fld_owner f1) hu hs heq
+    exact hI.poolNotFld p hp (e ▸ f1)
+
+open ObiVerif.SeqHeap in
+/-- **frame** on the heap: an operation leaves every object other than its target exactly as it was
+(bases, qualities, features, annotations), whatever buffers the pool hands out -/
+theorem heap_frame {h h' : Heap} {ch : Nat → Nat} {op : HOp} (hI : Inv h) (hs : step h ch op = .ok h')
+    (n : String) (hn : some n ≠ op.target) : h'.view n = h.view n := (step_ok hI hs).2 n hn
+
+open ObiVerif.SeqHeap in
+/-- no aliasing along a whole history on the heap: an object that no operation targets (copies made
+from it, reverse complements, subsequences, recycling of those, scratch buffers … are all allowed) shows
+the same bytes at the end -/
+theorem heap_no_alias (ops : List HOp) (ch : Nat → Nat → Nat) (i : Nat) (h h' : Heap) (hI : Inv h)
+    (hr : SeqHeap.run h ch i ops = .ok h') (n : String) (hn : ∀ op ∈ ops, some n ≠ op.target) :
+    h'.view n = h.view n := by
+  induction ops generalizing h i with
+  | nil => simp only [SeqHeap.run, Except.ok.injEq] at hr; subst hr; rfl
+  | cons op t ih =>
+    simp only [SeqHeap.run] at hr
+    cases hs : step h (ch i) op with
+    | error e => simp [hs] at hr
+    | ok h1 =>
+      simp only [hs] at hr
+      rw [ih (i + 1) h1 (step_ok hI hs).1 hr (fun o ho => hn o (List.mem_cons_of_mem _ ho))]
+      exact (step_ok hI hs).2 n (hn op (by simp))
 
 end ObiVerif.Props.C07
